@@ -126,6 +126,21 @@ def main():
                 dirs.append(d)
             tdirs[key] = dirs
 
+        # model transport is re-validated against the repository's own tests on every run
+        model_val = {}
+        val_thread = None
+        if any(h["flavour"].startswith("model") for h in hs):
+            import threading
+            import validate_model
+
+            def _val():
+                try:
+                    model_val.update(validate_model.validate(scratch))
+                except Exception as e:  # noqa
+                    model_val.update({"ok": False, "note": "validation crashed: %r" % (e,)})
+            val_thread = threading.Thread(target=_val)
+            val_thread.start()
+
         import queue
         pools = {k: queue.Queue() for k in tdirs}
         for k, dirs in tdirs.items():
@@ -158,6 +173,15 @@ def main():
                 log("  %-60s %-12s %6.0fs  vars=%s steps=%s %s" % (
                     "::".join(h["fqn"].split("::")[-3:]).replace("verif_", ""), r["verdict"], r["wall_s"], st.get("sat_vars"),
                     st.get("symex_steps"), "; ".join(r["notes"])[:200]))
+
+        if val_thread is not None:
+            val_thread.join()
+            log("model transport validation: %s (%s repo tests passed, %s failed)" % (
+                "ok" if model_val.get("ok") else "FAILED", model_val.get("tests_passed"), model_val.get("tests_failed")))
+            if not model_val.get("ok"):
+                results.append({"harness": "<model transport validation>", "verdict": "inconclusive", "failures": [],
+                                "notes": ["the repository's own fusedev/server tests do not pass over the model transport: "
+                                          + str(model_val.get("log_tail", model_val.get("note", "")))[-600:]], "stats": {}, "wall_s": 0})
 
         # ---- failures: playback/replay, known findings
         known = load_known()
@@ -234,6 +258,7 @@ def main():
                 "engine": "Kani 0.68.0 / CBMC 6.11.0 / CaDiCaL, unwinding assertions on",
                 "known_findings_hit": [k["key"] for k, _ in known_hits],
                 "extra": registry.GEN_INFO,
+                "model_transport_validation": model_val or None,
             },
             "assumptions": registry.assumptions_for(pid, hs),
             "wall_s": round(time.time() - t0, 1),
